@@ -357,6 +357,25 @@ func runC19(c *Ctx) {
 				}
 			}
 		}
+		// the revert loop written in a new helper that is handed the syncer's reverter
+		for _, call := range AllCalls(fsync) {
+			if newHelperCallee(call) == nil {
+				continue
+			}
+			handed := false
+			for _, a := range call.Common().Args {
+				if t := T(a); t.Op == "field" && t.Sym == "reverter" {
+					handed = true
+				}
+			}
+			if !handed {
+				continue
+			}
+			a := call.Common().Args
+			if t := T(a[len(a)-1]); t.Op != "const" || t.Sym == "true" {
+				parks = append(parks, Site{fsync, call})
+			}
+		}
 		restores := CallsIn(fsync, "(*consensus/sync.fastSyncer).restoreBlocks")
 		clears := CallsIn(fsync, "(*blockchain.DataAccess).ClearTempBlocks")
 		nSuccess := 0
